@@ -675,23 +675,24 @@ impl Database {
             },
             key => {
                 {
-                    if let Some(value) = self.get_value(key.clone()) {
+                    // read and write under one write lock, so that a concurrent set is either
+                    // entirely before or entirely after the remove
+                    let mut db = self.map.write().unwrap();
+                    if let Some(value) = db.get(&key).cloned() {
                         // If deleted before the key is in disk remove direct from memory
                         if value.state == ValueStatus::New {
-                            #[cfg(nundb_verif)]
-                            crate::verif_hooks::yield_point("map.write");
-                            let mut db = self.map.write().unwrap();
                             db.remove(&key);
                         } else {
-                            // value.
-                            self.set_value_version(
-                                &key,
-                                &String::from("<Empty>"),
-                                value.version.saturating_add(1),
-                                ValueStatus::Deleted,
-                                value.value_disk_addr,
-                                value.key_disk_addr,
-                                value.opp_id,
+                            db.insert(
+                                key.clone(),
+                                Value {
+                                    value: String::from("<Empty>"),
+                                    version: value.version.saturating_add(1),
+                                    state: ValueStatus::Deleted,
+                                    value_disk_addr: value.value_disk_addr,
+                                    key_disk_addr: value.key_disk_addr,
+                                    opp_id: value.opp_id,
+                                },
                             );
                         }
                     }
